@@ -71,6 +71,7 @@ pf_thorough = pf_quick + [
 ]
 H.append({
     "name": "h_pubfile", "src": "h_pubfile.c", "env": ENV + ["ext_seam"], "tus": RULE_TUS,
+    "solver": "cadical",     # 64-bit time comparisons over 3 records: minisat > 15 min, cadical < 1 s
     "unwind": 6, "timeout": 300, "mem_gb": 8, "object_bits": 12,
     "functions": ["KSI_VerificationRule_PublicationsFileContainsSignaturePublication", "KSI_VerificationRule_PublicationsFileDoesNotContainSignaturePublication",
                   "KSI_VerificationRule_PublicationsFileSignaturePublicationVerification", "KSI_VerificationRule_PublicationsFileContainsSuitablePublication",
@@ -203,8 +204,13 @@ E2E_QUICK = [inst("cal_head", GROUP=0, C04_EXT_DIRS=0), inst("cal_status", GROUP
              inst("pubfile_earlier", GROUP=2, AGGR_TIME=1000, ANCHOR_TIME=999),
              inst("user_neterr", GROUP=1, EXCH=1, **T), inst("pubfile_oom", GROUP=2, EXCH=2, **T)]
 # a successful exchange followed by all comparisons in one run: 2-4 min each (11.8M variables) - thorough tier only
-E2E_SLOW = [inst("user_earlier", GROUP=1, AGGR_TIME=1000, ANCHOR_TIME=999), inst("user_l", GROUP=1, C04_EXT_DIRS=1, **T), inst("user_r", GROUP=1, C04_EXT_DIRS=0, AGGR_TIME=1000, ANCHOR_TIME=1001),
-            inst("pubfile_l", GROUP=2, C04_EXT_DIRS=1, AGGR_TIME=1000, ANCHOR_TIME=1000)]
+# (without --slice-formula they need 31M variables / 12 GB; with it 11.8M / 4 GB.  Slicing is tolerated for these three thorough-only glue checks:
+#  should one of them ever fail, the sliced trace may replay out of step and the failure would be reported as MODEL-MISMATCH, not VIOLATION -
+#  still a non-ok result.)
+SL = ["--slice-formula"]
+E2E_SLOW = [inst("user_earlier", GROUP=1, AGGR_TIME=1000, ANCHOR_TIME=999), inst("user_l", GROUP=1, C04_EXT_DIRS=1, _cbmc_flags=SL, **T),
+            inst("user_r", GROUP=1, C04_EXT_DIRS=0, AGGR_TIME=1000, ANCHOR_TIME=1001, _cbmc_flags=SL),
+            inst("pubfile_l", GROUP=2, C04_EXT_DIRS=1, AGGR_TIME=1000, ANCHOR_TIME=1000, _cbmc_flags=SL)]
 # (a reply with another request id, EXCH=4, makes symex follow both outcomes of the id comparison: > 30 min; that case is h_ext's subject)
 H.append({
     "name": "h_e2e", "src": "h_e2e.c", "env": ENV + ["ext_seam"], "tus": ["verification_rule", "signature", "hashchain", "hash", "publicationsfile", "types", "tlv"],
